@@ -1,5 +1,8 @@
 import MobiusModel.Session
+import MobiusModel.LoginHistory
+import MobiusModel.BanReload
 import MobiusModel.Generated.Consts
+import MobiusModel.Generated.LockShape
 /-!
   C04 — Nothing is served before a successful login.
 
@@ -151,7 +154,123 @@ theorem renamed_login_authenticates {W O : Type} (env : Env W O) (old new newHas
     Session.authenticate { env with accts := renameAcct env.accts old new newHash } t = env.verify newHash (pwOf t) := by
   simp [Session.authenticate, hnew, renameAcct_new]
 
-/-! Obligation over the constants regenerated from /repo's source: the fallback account's name. -/
+/-! ### The account table after an administrator's batched edit (TranUpdateUser, several records)
+
+    "Its current password" is what the LAST acknowledged edit of that account set.  `LoginHistory.applyBatch`
+    is `HandleUpdateUser` on the table `login ↦ stored hash`: the records in order, each read through ITS OWN
+    sub-fields, stopping at the first one that fails. -/
+
+/-- (7) An acknowledged batch is exactly its records applied one after the other, each with its own
+    sub-fields: nothing of an earlier record is visible to a later one. -/
+theorem batched_edit_is_record_by_record (hash : Bytes → Bytes) (recs : List (List Field)) (t : LoginHistory.Table)
+    (hack : (LoginHistory.applyBatch hash recs t).2 = true) :
+    (LoginHistory.applyBatch hash recs t).1 = LoginHistory.applySingles hash recs t :=
+  LoginHistory.applyBatch_eq_singles hash recs t hack
+
+/-- (7a) The last record naming a login decides: after an acknowledged batch `pre ++ fs :: post` in
+    which no record of `post` names the login of the first transaction, the connection is logged in
+    exactly when handshake and ban gate pass and the entry that `fs` — applied with its own sub-fields
+    to the table left by `pre` — gave that login verifies the password presented. -/
+theorem logged_in_after_batch_iff {W O : Type} (env : Env W O) (w : W) (chunks : List Bytes) (hash : Bytes → Bytes)
+    (pre post : List (List Field)) (fs : List Field)
+    (hack : (LoginHistory.applyBatch hash (pre ++ fs :: post) env.accts).2 = true)
+    (hpost : ∀ t, Transaction.decode (Session.firstToken chunks.flatten) = .ok t → ∀ r ∈ post, ¬ LoginHistory.touches r (loginOf t)) :
+    (Session.run (LoginHistory.envAfter env hash (pre ++ fs :: post)) w chunks).loggedIn = true ↔
+      (chunks.flatten.take 12).length = 12 ∧ handshakeValid (chunks.flatten.take 12) = true ∧
+      BanGate.refused env.bans (BanGate.ipOf env.addr) env.now = false ∧
+      ∃ t, Transaction.decode (Session.firstToken chunks.flatten) = .ok t ∧
+        ∃ h, (LoginHistory.applyRec hash fs (LoginHistory.applyBatch hash pre env.accts).1).1 (loginOf t) = some h ∧
+          env.verify h (pwOf t) = true := by
+  rw [logged_in_iff]
+  constructor
+  · rintro ⟨h1, h2, h3, t, ht, h, hacc, hv⟩
+    refine ⟨h1, h2, h3, t, ht, h, ?_, hv⟩
+    rw [← LoginHistory.batch_last_edit_decides hash pre post fs env.accts (loginOf t) hack (hpost t ht)]
+    exact hacc
+  · rintro ⟨h1, h2, h3, t, ht, h, hacc, hv⟩
+    refine ⟨h1, h2, h3, t, ht, h, ?_, hv⟩
+    show (LoginHistory.applyBatch hash (pre ++ fs :: post) env.accts).1 (loginOf t) = some h
+    rw [LoginHistory.batch_last_edit_decides hash pre post fs env.accts (loginOf t) hack (hpost t ht)]
+    exact hacc
+
+/-- (7b) A password changed by a record of the batch: afterwards the OLD password (anything bcrypt
+    does not verify against the hash of the new one) is refused, whatever else the batch contained
+    before that record and provided no later record names the account. -/
+theorem password_changed_in_batch_old_refused {W O : Type} (env : Env W O) (w : W) (chunks : List Bytes) (hash : Bytes → Bytes)
+    (pre post : List (List Field)) (fs : List Field) (lg p h nm : Bytes) (tr : Transaction)
+    (hack : (LoginHistory.applyBatch hash (pre ++ fs :: post) env.accts).2 = true)
+    (htr : Transaction.decode (Session.firstToken chunks.flatten) = .ok tr) (hl : loginOf tr = obfuscate lg)
+    (hpost : ∀ r ∈ post, ¬ LoginHistory.touches r (obfuscate lg))
+    (hlen : fs.length ≠ 1) (h105 : LoginHistory.getF 105 fs = some lg) (h101 : LoginHistory.getF 101 fs = none)
+    (hex : (LoginHistory.applyBatch hash pre env.accts).1 (obfuscate lg) = some h)
+    (h102 : LoginHistory.getF 102 fs = some nm) (h106 : LoginHistory.getF 106 fs = some p) (hp0 : p ≠ [0])
+    (hwrong : env.verify (hash p) (pwOf tr) = false) :
+    (Session.run (LoginHistory.envAfter env hash (pre ++ fs :: post)) w chunks).loggedIn = false := by
+  apply unverifiable_account_never_logs_in
+  intro u hh hu hacc
+  rw [htr] at hu
+  injection hu with hu
+  subst hu
+  have := LoginHistory.batch_last_edit_decides hash pre post fs env.accts (obfuscate lg) hack hpost
+  rw [LoginHistory.applyRec_set_password hash fs _ lg p h nm hlen h105 h101 hex h102 h106 hp0] at this
+  simp only [LoginHistory.set_same] at this
+  simp only [LoginHistory.envAfter, hl] at hacc
+  rw [this] at hacc
+  injection hacc with hacc
+  subst hacc
+  show env.verify (hash p) (pwOf tr) = false
+  exact hwrong
+
+/-- (7c) An account deleted by a record of the batch cannot be logged in to afterwards, with any password. -/
+theorem deleted_in_batch_refused {W O : Type} (env : Env W O) (w : W) (chunks : List Bytes) (hash : Bytes → Bytes)
+    (pre post : List (List Field)) (d h : Bytes) (tr : Transaction)
+    (hack : (LoginHistory.applyBatch hash (pre ++ [⟨101, d⟩] :: post) env.accts).2 = true)
+    (htr : Transaction.decode (Session.firstToken chunks.flatten) = .ok tr) (hl : loginOf tr = obfuscate d)
+    (hpost : ∀ r ∈ post, ¬ LoginHistory.touches r (obfuscate d))
+    (hex : (LoginHistory.applyBatch hash pre env.accts).1 (obfuscate d) = some h) :
+    (Session.run (LoginHistory.envAfter env hash (pre ++ [⟨101, d⟩] :: post)) w chunks).loggedIn = false := by
+  apply unverifiable_account_never_logs_in
+  intro u hh hu hacc
+  rw [htr] at hu
+  injection hu with hu
+  subst hu
+  have := LoginHistory.batch_last_edit_decides hash pre post [⟨101, d⟩] env.accts (obfuscate d) hack hpost
+  rw [LoginHistory.applyRec_delete hash d h _ hex] at this
+  simp only [LoginHistory.del_same] at this
+  simp only [LoginHistory.envAfter, hl] at hacc
+  rw [this] at hacc
+  cases hacc
+
+/-- (7d) Accounts no record names keep their entry (and hence their password). -/
+theorem untouched_by_batch_keeps_entry (hash : Bytes → Bytes) (recs : List (List Field)) (t : LoginHistory.Table) (l : Bytes)
+    (h : ∀ fs ∈ recs, ¬ LoginHistory.touches fs l) : (LoginHistory.applyBatch hash recs t).1 l = t l :=
+  LoginHistory.applyBatch_untouched hash recs t l h
+
+/-! ### The ban gate across configuration reloads -/
+
+/-- (8) A reload never admits a banned address: in every schedule of the three steps of
+    `BanFile.Load`, connection attempts, further bans and operator edits of the file that the mutex
+    allows and that leave the entry of address `a` alone, every ban check of `a` decides as that
+    entry demands — the list is never observed empty in between. -/
+theorem reload_never_admits_banned (a : Bytes) (e : BanGate.Entry) (evs : List BanReload.Ev) (s s' : BanReload.St)
+    (obs : List BanReload.Obs) (h : BanReload.Inv a e s) (hk : ∀ ev ∈ evs, BanReload.Keeps a e ev)
+    (hr : BanReload.run true s evs = some (s', obs)) :
+    ∀ ob ∈ obs, ob.addr = a → ob.refused = BanReload.decisionOf e ob.now :=
+  (BanReload.gate_stable_across_reloads a e evs s s' obs h hk hr).2
+
+/-- (8a) … because a connection that reaches the gate during a reload waits for it. -/
+theorem check_waits_for_reload (s : BanReload.St) (a : Bytes) (now : Nat) (h : s.loader ≠ .idle) :
+    BanReload.step true s (.check a now) = none :=
+  BanReload.check_waits_for_reload s a now h
+
+/-! Obligations over the facts regenerated from /repo's source. -/
+
+/-- `BanFile.Load` is ONE critical section: one `Lock()`, its `Unlock()` deferred, no explicit unlock
+    in between (the shape `BanReload.step true` models). -/
+theorem generated_ban_load_one_critical_section :
+    Generated.reloadSections.lookup "mobius.BanFile.Load" = some (1, 0, true) := by decide
+
+/-- The fallback account's name. -/
 
 theorem generated_guestAccount : Generated.stringConsts.lookup "GuestAccount" = some "guest" := by decide
 
@@ -173,5 +292,29 @@ example : (Session.core (demoEnv BanGate.Store.empty [49] 0) 40 demoHandshake
 -- an accepted guest login followed by a keep-alive: logged in, one transaction dispatched
 example : (Session.core (demoEnv BanGate.Store.empty [49] 0) 40 demoHandshake
       (fun _ => ⟨[demoLogin.encode, demoKeepAlive.encode], .eof⟩)).dispatched = [demoKeepAlive] := by decide +kernel
+
+-- a batch of three records (password change of "ab", deletion of "cd", creation of "ef"), acknowledged
+def demoTable : LoginHistory.Table := LoginHistory.ofList [([97, 98], [1, 49]), ([99, 100], [1, 50])]
+def demoBatch : List (List Field) :=
+  [[⟨105, obfuscate [97, 98]⟩, ⟨102, [65]⟩, ⟨110, []⟩, ⟨106, [57]⟩], [⟨101, obfuscate [99, 100]⟩],
+   [⟨106, [55]⟩, ⟨105, obfuscate [101, 102]⟩, ⟨110, []⟩, ⟨102, [66]⟩]]
+example : (LoginHistory.applyBatch (fun p => 1 :: p) demoBatch demoTable).2 = true := by decide
+example : (LoginHistory.applyBatch (fun p => 1 :: p) demoBatch demoTable).1 [97, 98] = some [1, 57] ∧
+    (LoginHistory.applyBatch (fun p => 1 :: p) demoBatch demoTable).1 [99, 100] = none ∧
+    (LoginHistory.applyBatch (fun p => 1 :: p) demoBatch demoTable).1 [101, 102] = some [1, 55] := by decide
+example : ¬ LoginHistory.touches [⟨101, obfuscate [99, 100]⟩] [97, 98] := by
+  simp [LoginHistory.touches, LoginHistory.renameSrc, LoginHistory.getF, obfuscate]
+-- a reload with a connection from a permanently banned address arriving afterwards: refused; during: waits
+example : BanReload.run true ⟨⟨[([49], none)]⟩, ⟨[([49], none)]⟩, .idle⟩
+    [.loadLock, .loadRead, .loadUnlock, .check [49] 5] = some (⟨⟨[([49], none)]⟩, ⟨[([49], none)]⟩, .idle⟩, [⟨[49], 5, true⟩]) := by
+  decide
+example : BanReload.run true ⟨⟨[([49], none)]⟩, ⟨[([49], none)]⟩, .idle⟩ [.loadLock, .check [49] 5] = none := by decide
+example : BanReload.Inv [49] none ⟨⟨[([49], none)]⟩, ⟨[([49], none)]⟩, .idle⟩ := by
+  simp [BanReload.Inv, BanGate.Store.lookup, List.lookup]
+-- without the critical section the same address would be admitted half-way through the reload
+example : BanReload.run false ⟨⟨[([49], none)]⟩, ⟨[([49], none)]⟩, .idle⟩
+    [.loadLock, .check [49] 5, .loadRead, .loadUnlock, .check [49] 5] =
+      some (⟨⟨[([49], none)]⟩, ⟨[([49], none)]⟩, .idle⟩, [⟨[49], 5, false⟩, ⟨[49], 5, true⟩]) :=
+  (BanReload.unlocked_clear_admits [49] 5).2
 
 end Mobius.C04
